@@ -20,7 +20,6 @@ import (
 	"golang.org/x/tools/go/ssa"
 )
 
-
 type Witness struct {
 	Harness  string
 	Model    map[string]uint64
@@ -269,6 +268,9 @@ type checkSpec struct {
 	stubs       []string
 	bounds      map[string]string // tier -> text
 	outside     string
+	// also: harnesses named after another property whose scenario carries assertions of this one
+	// (listed by full name without the vfH_ prefix); they run as part of this check too
+	also []string
 }
 
 func sanitize(s string) string {
@@ -321,6 +323,12 @@ func runCheck(id, tier string, o RunOpts) int {
 			}
 			harnesses = append(harnesses, n)
 		}
+	}
+	for _, a := range spec.also {
+		if p.pkg.Func("vfH_"+a) == nil {
+			return fail("cross-listed harness vfH_" + a + " does not exist")
+		}
+		harnesses = append(harnesses, "vfH_"+a)
 	}
 	sort.Strings(harnesses)
 	sort.Strings(all)
@@ -531,7 +539,7 @@ func runCheck(id, tier string, o RunOpts) int {
 		}
 		matched := false
 		for _, kf := range known {
-			if kf.kind == "known" && kf.prop == id && kf.key == key {
+			if kf.kind == "known" && (kf.prop == id || !strings.HasPrefix(key, id+"_")) && kf.key == key {
 				fmt.Printf("KNOWN-FINDING: property=%s %s [%s]\n", id, kf.text, key)
 				knownMatched = append(knownMatched, key)
 				matched = true
@@ -564,27 +572,28 @@ func runCheck(id, tier string, o RunOpts) int {
 		"samples":                       samples,
 		"explanation": "bounded symbolic model checking: states = feasible paths of the real SSA explored to completion, transitions = branch/value/choice decisions; " +
 			"every assertion is an SMT query PC ∧ ¬cond over all input values within the stated bounds",
-		"harnesses":            harnesses,
-		"functions_encoded":    fl,
-		"source_hashes":        srcHash,
-		"bounds":               spec.bounds[tier],
-		"outside_the_claim":    spec.outside,
-		"stubs_used":           spec.stubs,
-		"queries":              map[string]int{"total": totals["queries"], "unsat": totals["unsat"], "sat": totals["sat"], "unknown": totals["unknown"]},
-		"assertions_discharged": assertLabels,
+		"harnesses":              harnesses,
+		"cross_listed_harnesses": spec.also,
+		"functions_encoded":      fl,
+		"source_hashes":          srcHash,
+		"bounds":                 spec.bounds[tier],
+		"outside_the_claim":      spec.outside,
+		"stubs_used":             spec.stubs,
+		"queries":                map[string]int{"total": totals["queries"], "unsat": totals["unsat"], "sat": totals["sat"], "unknown": totals["unknown"]},
+		"assertions_discharged":  assertLabels,
 		"assertion_instances_decided_by_term_normalisation": totals["by-norm"],
-		"assertion_instances_decided_by_solver_query":      totals["by-solver"],
-		"merged_regions_executed":                          totals["forks"],
-		"instructions_executed": totals["steps"],
-		"solver_s":             solverS,
-		"solvers":              o.solver,
-		"encoding_load_s":      p.loadS + p.buildS,
-		"native_build_s":       nr.buildS,
-		"native_clock_patched": nr.clock,
-		"inconclusive":         problems,
-		"known_findings_matched": knownMatched,
-		"unconfirmed":          unconfirmed,
-		"witness_models_replayed": len(witnessFiles),
+		"assertion_instances_decided_by_solver_query":       totals["by-solver"],
+		"merged_regions_executed":                           totals["forks"],
+		"instructions_executed":                             totals["steps"],
+		"solver_s":                                          solverS,
+		"solvers":                                           o.solver,
+		"encoding_load_s":                                   p.loadS + p.buildS,
+		"native_build_s":                                    nr.buildS,
+		"native_clock_patched":                              nr.clock,
+		"inconclusive":                                      problems,
+		"known_findings_matched":                            knownMatched,
+		"unconfirmed":                                       unconfirmed,
+		"witness_models_replayed":                           len(witnessFiles),
 	}
 	writeEvidence(evPath, id, tier, o.seed, cov, spec.assumptions, time.Since(t0).Seconds(), violations)
 	for _, l := range violationLines {
